@@ -702,6 +702,7 @@ def run(res):
         "coq_eval_seconds": round(coq_secs, 1),
         "samples": [{"scenario": strip(sample), "impl_obs": (results.get(sample["id"]) or {}).get("obs")}],
     })
+    rr_part(res)
     res.assumptions += [
         "Go memory model: a []byte is (block, offset, length); copy() and make() behave as the heap model says",
         "cluster paths other than the embedded client of the partition owner return bytes read from the network (fresh blocks)",
@@ -709,7 +710,72 @@ def run(res):
         "one logical store stands for all fragments of the DMap: observables do not depend on the slab layout once reads are copies"]
 
 
+def gen_rr(rng, sid):
+    """ReadRepair on: the bytes a Get returned are the caller's; what read repair writes to the lagging copies is the stored value"""
+    members = rng.choice([2, 3])
+    opts = {"members": members, "replicas": rng.choice([2, members]), "partitions": 7, "table": 4096, "readrepair": True}
+    ops = [["rrscribble", bytes([114, 48 + j]).hex(), rbytes(rng, rng.randrange(6, 40)).hex()] for j in range(8)]
+    return {"id": sid, "level": "cluster", "opts": opts, "dmap": "d", "ops": ops, "_kind": "rr"}
+
+
+def judge_rr(sc, r):
+    if r is None or r.get("env"):
+        return None
+    for op, ob in zip(sc["ops"], r.get("obs") or []):
+        if not ob or ob[0] != "rr" or ob[1] != "ok":
+            continue
+        want = op[2]
+        first, baks, later = ob[2], ob[3], ob[4]
+        if first != want:
+            return "Get returned %s, stored %s" % (first, want)
+        for b in baks:
+            if b == "notrepaired":
+                continue        # read repair did not reach that copy in time: C06's subject
+            if b != want:
+                return ("after a Get with ReadRepair the backup copy holds %r, the stored value is %r: the caller wrote into the bytes it was handed "
+                        "and the repair stored them" % (bytes.fromhex(b), bytes.fromhex(want)))
+        for v in later:
+            if v != want:
+                return "a later Get returned %r, the stored value is %r (the first caller wrote into the bytes it was handed)" % (
+                    v if v.startswith("err") else bytes.fromhex(v), bytes.fromhex(want))
+    return None
+
+
+def rr_part(res):
+    scs = [gen_rr(vlib.rng_for(res.seed, PID, "rr", j), 900000 + j) for j in range(3 if res.tier == "quick" else 20)]
+    results = vallib.run_parallel("alias", [strip(s) for s in scs], jobs=4)
+    bad = judged = 0
+    for sc in scs:
+        r = results.get(sc["id"])
+        judged += sum(1 for ob in ((r or {}).get("obs") or []) if ob and ob[0] == "rr" and ob[1] == "ok")
+        msg = judge_rr(sc, r)
+        if msg:
+            bad += 1
+            if bad <= 2:
+                res.violation({"kind": "impl-violates-property", "part": "readrepair", "scenario": strip(sc), "impl_trace": (r or {}).get("obs"),
+                               "predicate": {"name": "returned bytes are private also from read repair", "verdict": msg}, "seed": res.seed})
+    res.coverage["read_repair_after_the_caller_wrote_into_the_value"] = {
+        "scenarios": len(scs), "reads_judged": judged, "failures": bad,
+        "rule": "ReadRepair on, 2-3 members, 2-3 copies: the backup owners hold a lagging copy (white-box), an embedded Get on the owner returns the value "
+                "and the caller overwrites every returned byte at once; afterwards the repaired backup copies and Gets through the owner, a cluster "
+                "client and another member have to hold the stored value"}
+
+
 def replay(res, path):
+    _o = json.load(open(path))
+    if _o.get("part") == "readrepair":
+        ok, out = vlib.harness_build()
+        if not ok:
+            raise vlib.CheckError(out)
+        sc = dict(_o["scenario"], id=0)
+        for attempt in range(3):
+            r = vallib.run_parallel("alias", [sc], jobs=1).get(0)
+            msg = judge_rr(sc, r)
+            if msg:
+                print(msg)
+                print("VIOLATION property=%s replay=%s" % (res.pid, path))
+                return 1
+        return 0
     obj = json.load(open(path))
     sc = obj.get("scenario")
     if not sc:
